@@ -58,7 +58,7 @@ int main(int argc, char** argv) {
     std::fflush(all);
     pid_t pid = fork();
     if (pid == 0) {
-      alarm(6);
+      alarm(3);
       out().open(tmp.c_str());
       Rng r(seed * 7919 + ln);
       if (mode == "onehot") emit_onehot(N, d, k, closed);
